@@ -12,7 +12,7 @@ use std::alloc::{GlobalAlloc, Layout, System};
 use std::sync::atomic::{AtomicBool, AtomicUsize, Ordering};
 
 const BASE: usize = 0x6a00_0000_0000;
-const REGION: usize = 48 << 30; // virtual reservation; pages are touched lazily
+const REGION: usize = 16 << 30; // virtual reservation; pages are touched lazily
 const MIN_SHIFT: u32 = 4; // 16 bytes
 const MAX_SHIFT: u32 = 20; // 1 MiB
 const CLASSES: usize = (MAX_SHIFT - MIN_SHIFT + 1) as usize;
